@@ -277,5 +277,8 @@ kf("C03", "C03-private-array-declaration", "private arrays are declared `static 
 kf("C03", "C03-matrix-helper-on-unemitted-struct", "a storage-only struct with a matCx2 member and a runtime-array tail is not declared in the HLSL text, but GetMat/SetMat helpers taking it by value are emitted (same defect as C15-hlsl-matrix-helper-on-unemitted-struct)",
    ["C03|F4acc/*/storage-matrix-column|*|malformed-output:unknown type \"S\""])
 
+kf("C14", "C14-override-sized-workgroup-array", "ir.ProcessOverrides leaves the size of `var<workgroup> w: array<u32, X>` unresolved (no constant size in the resolved module) for every way of supplying X",
+   ["C14|sizes|*|array-size"])
+
 json.dump(K, open("known_findings.json", "w"), indent=1)
 print(len(K), "entries")
